@@ -288,7 +288,10 @@ class Ctx:
             detail = "; ".join("%s%s" % (l["name"], (" [" + l["key"] + "]") if l.get("key") else "") for l in bad[:6])
         if not self.lemmas:
             verdict, detail = "inconclusive", "no lemma was evaluated"
+        proved = sorted(set(l["name"] for l in self.lemmas if l["ok"] and not l.get("witness") and not l["name"].startswith("witness")))
         r = {"verdict": verdict, "detail": detail, "queries": q, "solver_s": round(ss, 3), "functions": fns,
+             "steps": sum(e.steps for e in self.engines), "proved": proved, "validated": getattr(self, "validated", 0),
+             "cvc5_decided": sum(getattr(e, "cvc5_decided", 0) for e in self.engines),
              "nontrivial": sum(1 for l in self.lemmas if l["ok"] and l.get("witness")) or (1 if verdict == "ok" else 0),
              "lemmas": self.lemmas[:200], "bounds": self.bounds, "paths": self.paths,
              "solvers": "z3 %s (all queries) + cvc5 cross-check on %d lemma queries" % (__import__("z3").get_version_string(), self.cvc5_checked)}
